@@ -88,10 +88,11 @@ func StartServer(mut func(c *v1.ServerConfig)) (*Server, error) {
 }
 
 func (s *Server) Close() {
+	_ = s.Svc.Close() // closes the listeners, which ends Run's accept loop
 	s.cancel()
 	select {
 	case <-s.done:
-	case <-time.After(5 * time.Second):
+	case <-time.After(300 * time.Millisecond):
 	}
 }
 
